@@ -294,8 +294,21 @@ class Models(object):
         R('Option::unwrap|Option::expect', opt_unwrap)
         R('Option::unwrap_or_default', lambda ex, fr, c, a, st, pc:
           (merge(tag_is(a[0], 1), payload(a[0], 1), S.bv(0, payload(a[0], 1).sort)), S.TRUE))
-        R('Option::as_ref|Option::cloned|Option::copied|Option::as_deref', lambda ex, fr, c, a, st, pc:
+        R('Option::as_ref|Option::as_deref', lambda ex, fr, c, a, st, pc:
           ((rd(st, a[0]) if isinstance(a[0], RefV) else a[0]), S.TRUE))
+
+        def opt_cloned(ex, fr, c, a, st, pc):
+            o = rd(st, a[0]) if isinstance(a[0], RefV) else a[0]
+            p_ = o.payloads.get(1, UNDEF)
+            if p_ is not UNDEF and len(p_) and isinstance(p_[0], RefV):
+                v = p_[0]
+                while isinstance(v, RefV):
+                    v = rd(st, v)
+                pl = dict(o.payloads)
+                pl[1] = (v,)
+                o = EnumV(o.tag, pl)
+            return o, S.TRUE
+        R('Option::cloned|Option::copied', opt_cloned)
 
         def opt_take(ex, fr, c, a, st, pc):
             o = rd(st, a[0])
@@ -806,10 +819,16 @@ class Models(object):
         return ('veciter', VecV(cells, cnt), S.bv(0, 64), 'val'), st, S.TRUE
 
     def dmref_value(self, ex, fr, c, a, st, pc):
-        r = self.rd(st, a[0])
+        ref = a[0]
+        if not isinstance(ref, RefV):
+            # the guard itself was handed over by value (e.g. through Option::as_ref().map(..)): give it a home
+            ref = RefV(ex.alloc(st, ref, 'dmref'), ())
+        while isinstance(self.rd(st, ref), RefV):
+            ref = self.rd(st, ref)
+        r = self.rd(st, ref)
         if not (isinstance(r, tuple) and r and r[0] == 'dmref'):
             raise Unsupported('Ref::value on %r' % (r,))
-        return RefV(a[0].root, a[0].path + (2,)), S.TRUE
+        return RefV(ref.root, ref.path + (2,)), S.TRUE
 
     # ------------------------------------------------------------------ segqueue
     # FIFO as guarded append-only entries; an entry's id is its creation order in the unrolled
